@@ -102,7 +102,10 @@ fn run_case(seed: u64, idx: u64, all_rates: bool) -> CaseOut {
     let mut model: Vec<(u64, String)> = vec![(0, String::new()); n_bars];
 
     let n_ops = rng.range(200, 1500);
-    let mode_major = rng.below(6);
+    // arrival mode 6 is the metronome: a burst that empties the bucket, then requests exactly one refresh
+    // interval apart - each of them is due
+    let mode_major = rng.below(7);
+    let ceil_interval = interval_ns + if 1_000_000_000 % rate as u64 != 0 { 1 } else { 0 };
     let mut frames: Vec<Frame> = Vec::new();
     let mut requests = 0u64;
     let mut skipped = 0u64;
@@ -132,7 +135,16 @@ fn run_case(seed: u64, idx: u64, all_rates: bool) -> CaseOut {
 
     'ops: for opi in 0..n_ops {
         let mode = if rng.chance(3, 4) { mode_major } else { rng.below(6) };
-        let g = gap(&mut rng, interval_ns, mode);
+        let metronome = mode_major == 6;
+        let g = if metronome {
+            if opi < 30 {
+                0
+            } else {
+                ceil_interval * rng.range(1, 2)
+            }
+        } else {
+            gap(&mut rng, interval_ns, mode.min(5))
+        };
         clock.fetch_add(g, Ordering::SeqCst);
         let now = clock.load(Ordering::SeqCst);
         let b = rng.usize(n_bars);
@@ -180,7 +192,7 @@ fn run_case(seed: u64, idx: u64, all_rates: bool) -> CaseOut {
             nested += 1;
             continue 'ops;
         }
-        let req = match rng.below(21) {
+        let req = match if metronome { 7 } else { rng.below(21) } {
             20 => Req::Reset,
             0 => Req::Force,
             1 => Req::Println,
@@ -384,7 +396,7 @@ pub fn run(cfg: &RunCfg) -> PropResult {
     };
     PropResult {
         report,
-        rule: "each evaluation: one arrival process of 200-1500 requests (tick, set_message, inc, set_position, force_draw, println, and in MultiProgress worlds nested requests: update() whose closure lets time pass and redraws a sibling, so that update()'s own request reaches the shared limiter with a stale stamp) with gaps from six families (0 ns bursts, sub-2ms noise, k*interval +-{0,1,999999} ns, around 1 ms, geometric up to 4 h, fractions of the interval) against one refresh rate (thorough: every rate 1..=255) on a limited or unlimited spy target, standalone or as MultiProgress target with 1-3 bars, driven on the virtual clock; non-trivial = at least 2 frames painted and at least 1 request skipped; distinct = (rate, target kind, arrival family, length, index)".into(),
+        rule: "each evaluation: one arrival process of 200-1500 requests (tick, set_message, inc, set_position, force_draw, println, and in MultiProgress worlds nested requests: update() whose closure lets time pass and redraws a sibling, so that update()'s own request reaches the shared limiter with a stale stamp) with gaps from seven families (a metronome: burst, then requests exactly one refresh interval apart; 0 ns bursts, sub-2ms noise, k*interval +-{0,1,999999} ns, around 1 ms, geometric up to 4 h, fractions of the interval) against one refresh rate (thorough: every rate 1..=255) on a limited or unlimited spy target, standalone or as MultiProgress target with 1-3 bars, driven on the virtual clock; non-trivial = at least 2 frames painted and at least 1 request skipped; distinct = (rate, target kind, arrival family, length, index)".into(),
         exhaustive: false,
     }
 }
